@@ -59,10 +59,10 @@ Qed.
 (* ---- one ping per tick taken ---- *)
 Lemma step_pings fail st s :
   count is_ping (snd (ka_step fail st s)) =
-  match st, s with Running _, STick => 1 | _, _ => 0 end.
+  match st with Running _ => if is_tick s then 1 else 0 | Stopped => 0 end.
 Proof.
-  destruct st as [np|]; [|reflexivity]. destruct s; cbn [ka_step]; [|reflexivity].
-  destruct (fail (S np)); reflexivity.
+  destruct st as [np|]; [|reflexivity]. destruct s; cbn [ka_step is_tick]; try reflexivity;
+    destruct (fail (S np)); reflexivity.
 Qed.
 
 Lemma pings_eq_ticks fail sched : forall np,
@@ -70,6 +70,10 @@ Lemma pings_eq_ticks fail sched : forall np,
 Proof.
   induction sched as [|s sched IHs]; intros np; [reflexivity|].
   cbn [ka_run ka_step taken]. destruct s.
+  - destruct (fail (S np)) eqn:Hf.
+    + rewrite run_stopped. reflexivity.
+    + specialize (IHs (S np)). destruct (ka_run fail (Running (S np)) sched) as [st2 a2].
+      cbn [snd app] in *. rewrite !count_cons, IHs. reflexivity.
   - destruct (fail (S np)) eqn:Hf.
     + rewrite run_stopped. reflexivity.
     + specialize (IHs (S np)). destruct (ka_run fail (Running (S np)) sched) as [st2 a2].
@@ -82,6 +86,9 @@ Lemma taken_prefix fail sched : forall np,
 Proof.
   induction sched as [|s sched IHs]; intros np; [exists []; reflexivity|].
   cbn [taken]. destruct s.
+  - destruct (fail (S np)).
+    + exists sched. reflexivity.
+    + destruct (IHs (S np)) as [rest Hr]. exists rest. cbn [app]. rewrite <- Hr. reflexivity.
   - destruct (fail (S np)).
     + exists sched. reflexivity.
     + destruct (IHs (S np)) as [rest Hr]. exists rest. cbn [app]. rewrite <- Hr. reflexivity.
@@ -102,46 +109,76 @@ Proof.
   induction sched as [|s sched IHs]; intros np; [cbn; lia|].
   cbn [taken]. destruct s.
   - destruct (fail (S np)); [cbn; lia|]. rewrite count_cons. cbn [is_quit]. apply IHs.
+  - destruct (fail (S np)); [cbn; lia|]. rewrite count_cons. cbn [is_quit]. apply IHs.
   - cbn; lia.
 Qed.
 
 (* ---- the complete shape of every run ---- *)
 Definition ok_between (fail : nat -> bool) (np n : nat) : Prop :=
   forall k, np < k <= np + n -> fail k = false.
+Definition all_ticks (l : list sel) : Prop := forallb is_tick l = true.
 
+Lemma all_ticks_repeat n : all_ticks (repeat STick n).
+Proof. unfold all_ticks. induction n as [|n IHn]; [reflexivity|]. cbn [repeat forallb is_tick andb]. exact IHn. Qed.
+
+(* every run: good pings for the ticks taken, then nothing yet / quit observed / a failed ping that
+   is answered by Close (quit still open afterwards) / a failed ping that is not (quit closed meanwhile) *)
 Lemma run_shape fail sched : forall np,
-  (exists n, sched = repeat STick n /\ ok_between fail np n /\
-     ka_run fail (Running np) sched = (Running (np + n), repeat APingOk n))
-  \/ (exists n suf, sched = repeat STick n ++ SQuit :: suf /\ ok_between fail np n /\
-     ka_run fail (Running np) sched = (Stopped, repeat APingOk n ++ [ATickerStop; AReturn]))
-  \/ (exists n suf, sched = repeat STick n ++ STick :: suf /\ ok_between fail np n /\
-     fail (S (np + n)) = true /\
+  (all_ticks sched /\ ok_between fail np (length sched) /\
+     ka_run fail (Running np) sched = (Running (np + length sched), repeat APingOk (length sched)))
+  \/ (exists pre suf, sched = pre ++ SQuit :: suf /\ all_ticks pre /\ ok_between fail np (length pre) /\
+     ka_run fail (Running np) sched = (Stopped, repeat APingOk (length pre) ++ [ATickerStop; AReturn]))
+  \/ (exists pre suf, sched = pre ++ STick :: suf /\ all_ticks pre /\ ok_between fail np (length pre) /\
+     fail (S (np + length pre)) = true /\
      ka_run fail (Running np) sched
-       = (Stopped, repeat APingOk n ++ [APingFail; ATickerStop; AClose; AReturn])).
+       = (Stopped, repeat APingOk (length pre) ++ [APingFail; ATickerStop; AClose; AReturn]))
+  \/ (exists pre suf, sched = pre ++ STickLate :: suf /\ all_ticks pre /\ ok_between fail np (length pre) /\
+     fail (S (np + length pre)) = true /\
+     ka_run fail (Running np) sched
+       = (Stopped, repeat APingOk (length pre) ++ [APingFail; ATickerStop; AReturn])).
 Proof.
   induction sched as [|s sched IHs]; intros np.
-  - left. exists 0. split; [reflexivity|]. split; [intros k Hk; lia|].
-    cbn [ka_run repeat]. rewrite Nat.add_0_r. reflexivity.
-  - destruct s.
+  - left. split; [reflexivity|]. split; [intros k Hk; cbn in Hk; lia|].
+    cbn [ka_run repeat length]. rewrite Nat.add_0_r. reflexivity.
+  - assert (Hstep : is_tick s = true -> fail (S np) = false ->
+        ka_run fail (Running np) (s :: sched)
+        = (fst (ka_run fail (Running (S np)) sched), APingOk :: snd (ka_run fail (Running (S np)) sched))).
+    { intros Ht Hf. cbn [ka_run]. destruct s; try discriminate; cbn [ka_step]; rewrite Hf;
+        destruct (ka_run fail (Running (S np)) sched); reflexivity. }
+    assert (Hext : fail (S np) = false -> forall n, ok_between fail (S np) n -> ok_between fail np (S n)).
+    { intros Hf n Hok k Hk. destruct (Nat.eq_dec k (S np)) as [->|Hne]; [exact Hf|]. apply Hok. lia. }
+    destruct (is_tick s) eqn:Ht.
     + destruct (fail (S np)) eqn:Hf.
-      * right. right. exists 0, sched. split; [reflexivity|]. split; [intros k Hk; lia|].
-        rewrite Nat.add_0_r. split; [exact Hf|].
-        cbn [ka_run ka_step]. rewrite Hf, run_stopped. reflexivity.
-      * assert (Hext : forall n, ok_between fail (S np) n -> ok_between fail np (S n)).
-        { intros n Hok k Hk. destruct (Nat.eq_dec k (S np)) as [->|Hne]; [exact Hf|].
-          apply Hok. lia. }
-        cbn [ka_run ka_step]. rewrite Hf.
-        destruct (IHs (S np)) as [(n & Hs & Hok & Hr)|[(n & suf & Hs & Hok & Hr)|(n & suf & Hs & Hok & Hfl & Hr)]].
-        -- left. exists (S n). split; [cbn [repeat]; rewrite Hs; reflexivity|].
-           split; [apply Hext, Hok|]. rewrite Hr. cbn [repeat app].
-           replace (np + S n) with (S np + n) by lia. reflexivity.
-        -- right. left. exists (S n), suf. split; [cbn [repeat app]; rewrite Hs; reflexivity|].
-           split; [apply Hext, Hok|]. rewrite Hr. reflexivity.
-        -- right. right. exists (S n), suf. split; [cbn [repeat app]; rewrite Hs; reflexivity|].
-           split; [apply Hext, Hok|].
-           split; [replace (np + S n) with (S np + n) by lia; exact Hfl|].
-           rewrite Hr. reflexivity.
-    + right. left. exists 0, sched. split; [reflexivity|]. split; [intros k Hk; lia|].
+      * (* the first ping fails *)
+        destruct s; try discriminate.
+        -- right. right. left. exists [], sched. split; [reflexivity|]. split; [reflexivity|].
+           split; [intros k Hk; cbn in Hk; lia|]. cbn [length]. rewrite Nat.add_0_r. split; [exact Hf|].
+           cbn [ka_run ka_step]. rewrite Hf, run_stopped. reflexivity.
+        -- right. right. right. exists [], sched. split; [reflexivity|]. split; [reflexivity|].
+           split; [intros k Hk; cbn in Hk; lia|]. cbn [length]. rewrite Nat.add_0_r. split; [exact Hf|].
+           cbn [ka_run ka_step]. rewrite Hf, run_stopped. reflexivity.
+      * specialize (Hstep eq_refl eq_refl). specialize (Hext eq_refl).
+        destruct (IHs (S np)) as [(Ha & Hok & Hr)|[(pre & suf & Hs & Ha & Hok & Hr)|[(pre & suf & Hs & Ha & Hok & Hfl & Hr)|(pre & suf & Hs & Ha & Hok & Hfl & Hr)]]];
+          rewrite Hstep, Hr; cbn [fst snd].
+        -- left. split; [unfold all_ticks in *; cbn [forallb]; rewrite Ht, Ha; reflexivity|].
+           split; [cbn [length]; apply Hext, Hok|].
+           cbn [length repeat]. replace (np + S (length sched)) with (S np + length sched) by lia. reflexivity.
+        -- right. left. exists (s :: pre), suf. split; [rewrite Hs; reflexivity|].
+           split; [unfold all_ticks in *; cbn [forallb]; rewrite Ht, Ha; reflexivity|].
+           split; [cbn [length]; apply Hext, Hok|]. reflexivity.
+        -- right. right. left. exists (s :: pre), suf. split; [rewrite Hs; reflexivity|].
+           split; [unfold all_ticks in *; cbn [forallb]; rewrite Ht, Ha; reflexivity|].
+           split; [cbn [length]; apply Hext, Hok|].
+           split; [cbn [length]; replace (np + S (length pre)) with (S np + length pre) by lia; exact Hfl|].
+           reflexivity.
+        -- right. right. right. exists (s :: pre), suf. split; [rewrite Hs; reflexivity|].
+           split; [unfold all_ticks in *; cbn [forallb]; rewrite Ht, Ha; reflexivity|].
+           split; [cbn [length]; apply Hext, Hok|].
+           split; [cbn [length]; replace (np + S (length pre)) with (S np + length pre) by lia; exact Hfl|].
+           reflexivity.
+    + destruct s; try discriminate.
+      right. left. exists [], sched. split; [reflexivity|]. split; [reflexivity|].
+      split; [intros k Hk; cbn in Hk; lia|].
       cbn [ka_run ka_step]. rewrite run_stopped. reflexivity.
 Qed.
 
@@ -150,6 +187,22 @@ Lemma run_fail_at fail suf : forall n np,
   ok_between fail np n -> fail (S (np + n)) = true ->
   ka_run fail (Running np) (repeat STick n ++ STick :: suf)
   = (Stopped, repeat APingOk n ++ [APingFail; ATickerStop; AClose; AReturn]).
+Proof.
+  induction n as [|n IHn]; intros np Hok Hf.
+  - cbn [repeat app ka_run ka_step]. rewrite Nat.add_0_r in Hf. rewrite Hf, run_stopped. reflexivity.
+  - cbn [repeat app ka_run ka_step].
+    rewrite (Hok (S np)) by lia.
+    rewrite (IHn (S np)).
+    + reflexivity.
+    + intros k Hk. apply Hok. lia.
+    + replace (S np + n) with (np + S n) by lia. exact Hf.
+Qed.
+
+(* the same when quit is closed while that ping is under way: no Close *)
+Lemma run_fail_late fail suf : forall n np,
+  ok_between fail np n -> fail (S (np + n)) = true ->
+  ka_run fail (Running np) (repeat STick n ++ STickLate :: suf)
+  = (Stopped, repeat APingOk n ++ [APingFail; ATickerStop; AReturn]).
 Proof.
   induction n as [|n IHn]; intros np Hok Hf.
   - cbn [repeat app ka_run ka_step]. rewrite Nat.add_0_r in Hf. rewrite Hf, run_stopped. reflexivity.
@@ -195,39 +248,74 @@ Lemma nothing_after_return fail sched np :
   after_return (snd (ka_run fail (Running np) sched)) = [].
 Proof.
   destruct (run_shape fail sched np)
-    as [(n & _ & _ & Hr)|[(n & suf & _ & _ & Hr)|(n & suf & _ & _ & _ & Hr)]];
+    as [(_ & _ & Hr)|[(pre & suf & _ & _ & _ & Hr)|[(pre & suf & _ & _ & _ & _ & Hr)|(pre & suf & _ & _ & _ & _ & Hr)]]];
     rewrite Hr; cbn [snd].
-  - rewrite <- (app_nil_r (repeat APingOk n)), after_return_ok. reflexivity.
+  - rewrite <- (app_nil_r (repeat APingOk _)), after_return_ok. reflexivity.
+  - rewrite after_return_ok. reflexivity.
   - rewrite after_return_ok. reflexivity.
   - rewrite after_return_ok. reflexivity.
 Qed.
 
-Lemma closes_eq_failures fail sched np :
+(* at most one failed ping, at most one Close and only after a failed ping, at most one return *)
+Lemma closes_le_failures fail sched np :
   let tr := snd (ka_run fail (Running np) sched) in
-  count is_close tr = count is_pingfail tr /\ count is_pingfail tr <= 1 /\ count is_return tr <= 1.
+  count is_close tr <= count is_pingfail tr /\ count is_pingfail tr <= 1 /\ count is_return tr <= 1.
 Proof.
   cbn zeta.
   destruct (run_shape fail sched np)
-    as [(n & _ & _ & Hr)|[(n & suf & _ & _ & Hr)|(n & suf & _ & _ & _ & Hr)]];
+    as [(_ & _ & Hr)|[(pre & suf & _ & _ & _ & Hr)|[(pre & suf & _ & _ & _ & _ & Hr)|(pre & suf & _ & _ & _ & _ & Hr)]]];
     rewrite Hr; cbn [snd]; rewrite ?count_app, ?count_repeat_false by reflexivity;
     cbn; lia.
+Qed.
+
+(* a schedule without a late tick (quit never closed under a ping): Close exactly when a ping failed *)
+Lemma closes_eq_failures fail sched : forall np,
+  existsb is_late sched = false ->
+  count is_close (snd (ka_run fail (Running np) sched)) = count is_pingfail (snd (ka_run fail (Running np) sched)).
+Proof.
+  induction sched as [|s sched IHs]; intros np Hl; [reflexivity|].
+  cbn [existsb] in Hl. apply orb_false_iff in Hl as [Hs Hl].
+  cbn [ka_run ka_step]. destruct s; try discriminate.
+  - destruct (fail (S np)) eqn:Hf.
+    + rewrite run_stopped. reflexivity.
+    + specialize (IHs (S np) Hl). destruct (ka_run fail (Running (S np)) sched) as [st2 a2].
+      cbn [snd app] in *. rewrite !count_cons. cbn [is_close is_pingfail]. lia.
+  - rewrite run_stopped. reflexivity.
+Qed.
+
+(* a schedule without a plain tick (every ping under which quit was closed): no Close at all *)
+Lemma no_plain_tick_no_close fail sched : forall st,
+  existsb is_plain_tick sched = false ->
+  count is_close (snd (ka_run fail st sched)) = 0.
+Proof.
+  induction sched as [|s sched IHs]; intros st Hp; [reflexivity|].
+  cbn [existsb] in Hp. apply orb_false_iff in Hp as [Hs Hp].
+  destruct st as [np|]; [|rewrite run_stopped; reflexivity].
+  cbn [ka_run ka_step]. destruct s; try discriminate.
+  - destruct (fail (S np)) eqn:Hf.
+    + rewrite run_stopped. reflexivity.
+    + specialize (IHs (Running (S np)) Hp). destruct (ka_run fail (Running (S np)) sched) as [st2 a2].
+      cbn [snd app] in *. rewrite count_cons. cbn [is_close]. lia.
+  - rewrite run_stopped. reflexivity.
 Qed.
 
 Lemma failure_shape fail sched np :
   let tr := snd (ka_run fail (Running np) sched) in
   In APingFail tr ->
-  exists n, tr = repeat APingOk n ++ [APingFail; ATickerStop; AClose; AReturn] /\
+  exists n, (tr = repeat APingOk n ++ [APingFail; ATickerStop; AClose; AReturn] \/
+             tr = repeat APingOk n ++ [APingFail; ATickerStop; AReturn]) /\
             fst (ka_run fail (Running np) sched) = Stopped /\
             fail (S (np + n)) = true /\ ok_between fail np n.
 Proof.
   cbn zeta.
   destruct (run_shape fail sched np)
-    as [(n & _ & _ & Hr)|[(n & suf & _ & Hok & Hr)|(n & suf & _ & Hok & Hf & Hr)]];
+    as [(_ & _ & Hr)|[(pre & suf & _ & _ & Hok & Hr)|[(pre & suf & _ & _ & Hok & Hf & Hr)|(pre & suf & _ & _ & Hok & Hf & Hr)]]];
     rewrite Hr; cbn [fst snd]; intros Hin.
   - apply in_repeat_ok in Hin. discriminate.
   - apply in_app_or in Hin as [Hin|Hin]; [apply in_repeat_ok in Hin; discriminate|].
     cbn [In] in Hin. destruct Hin as [Hin|[Hin|[]]]; discriminate.
-  - exists n. repeat split; assumption.
+  - exists (length pre). split; [left; reflexivity|]. repeat split; assumption.
+  - exists (length pre). split; [right; reflexivity|]. repeat split; assumption.
 Qed.
 
 (* ---- the loop has returned iff a ping failed or quit was observed ---- *)
@@ -244,6 +332,10 @@ Proof.
     + rewrite run_stopped. reflexivity.
     + specialize (IHs (S np)). destruct (ka_run fail (Running (S np)) sched) as [st2 a2].
       cbn [fst snd app existsb is_pingfail is_quit orb] in *. exact IHs.
+  - destruct (fail (S np)) eqn:Hf.
+    + rewrite run_stopped. reflexivity.
+    + specialize (IHs (S np)). destruct (ka_run fail (Running (S np)) sched) as [st2 a2].
+      cbn [fst snd app existsb is_pingfail is_quit orb] in *. exact IHs.
   - rewrite run_stopped. reflexivity.
 Qed.
 
@@ -253,6 +345,10 @@ Lemma returned_iff_b fail sched : forall np,
 Proof.
   induction sched as [|s sched IHs]; intros np; [reflexivity|].
   cbn [ka_run ka_step]. destruct s.
+  - destruct (fail (S np)) eqn:Hf.
+    + rewrite run_stopped. reflexivity.
+    + specialize (IHs (S np)). destruct (ka_run fail (Running (S np)) sched) as [st2 a2].
+      cbn [fst snd app existsb is_return orb] in *. exact IHs.
   - destruct (fail (S np)) eqn:Hf.
     + rewrite run_stopped. reflexivity.
     + specialize (IHs (S np)). destruct (ka_run fail (Running (S np)) sched) as [st2 a2].
@@ -271,7 +367,7 @@ Qed.
 Lemma existsb_In_sel l : existsb is_quit l = true <-> In SQuit l.
 Proof.
   rewrite existsb_exists. split.
-  - intros (a & Hin & Ha). destruct a; [discriminate|exact Hin].
+  - intros (a & Hin & Ha). destruct a; try discriminate. exact Hin.
   - intros Hin. exists SQuit. split; [exact Hin|reflexivity].
 Qed.
 
@@ -315,13 +411,13 @@ Proof.
 Qed.
 
 (* ---- the connection underneath: closed whatever the closing tag's write does ---- *)
-Lemma conn_trace_app cr t1 t2 : conn_trace cr (t1 ++ t2) = conn_trace cr t1 ++ conn_trace cr t2.
+Lemma conn_trace_app t1 t2 : conn_trace (t1 ++ t2) = conn_trace t1 ++ conn_trace t2.
 Proof. unfold conn_trace. apply flat_map_app. Qed.
 
-Lemma conn_trace_oks cr n : conn_trace cr (repeat APingOk n) = repeat (CWrite ping_data) n.
+Lemma conn_trace_oks n : conn_trace (repeat APingOk n) = repeat (CWrite ping_data) n.
 Proof. induction n as [|n IHn]; [reflexivity|]. cbn [repeat]. rewrite <- IHn. reflexivity. Qed.
 
-Lemma conn_closes_eq_closes cr tr : count is_connclose (conn_trace cr tr) = count is_close tr.
+Lemma conn_closes_eq_closes tr : count is_connclose (conn_trace tr) = count is_close tr.
 Proof.
   induction tr as [|a tr IHt]; [reflexivity|].
   change (a :: tr) with ([a] ++ tr). rewrite conn_trace_app, !count_app, IHt.
@@ -329,39 +425,111 @@ Proof.
 Qed.
 
 (* ---- environment level ---- *)
-Lemma resolve_ticks_le evs : forall pending closed,
-  count is_tick (resolve pending closed evs) <= (if pending then 1 else 0) + count_fire evs.
+Definition b2n (b : bool) : nat := if b then 1 else 0.
+
+(* ticks (hence pings) against ticker fires: each needs its own fire *)
+Lemma resolve_ticks_le evs : forall ph pending closed,
+  count is_tick (resolve ph pending closed evs) <= b2n (in_tick ph) + b2n pending + count_fire evs.
 Proof.
   unfold count_fire.
-  induction evs as [|e evs IHe]; intros pending closed; [destruct pending; cbn; lia|].
-  destruct e as [| |b]; cbn [resolve filter length].
-  - specialize (IHe true closed). cbn in IHe. destruct pending; lia.
+  induction evs as [|e evs IHe]; intros ph pending closed; [cbn; lia|].
+  destruct e as [| |b| | |]; cbn [resolve filter length].
+  - specialize (IHe ph true closed). cbn [b2n] in *. destruct pending; cbn [b2n]; lia.
   - apply IHe.
-  - destruct pending, closed.
-    + rewrite count_cons. cbn [is_tick]. specialize (IHe true true). cbn in IHe. lia.
-    + rewrite count_cons. cbn [is_tick]. specialize (IHe false false). cbn in IHe. lia.
-    + rewrite count_cons. cbn [is_tick]. specialize (IHe false true). cbn in IHe. lia.
-    + specialize (IHe false false). cbn in IHe. lia.
+  - destruct ph; try apply IHe.
+    destruct pending, closed.
+    + destruct b.
+      * specialize (IHe PTicked false true). cbn [in_tick b2n] in *. lia.
+      * rewrite count_cons. cbn [is_tick]. specialize (IHe PIdle true true). cbn [in_tick b2n] in *. lia.
+    + specialize (IHe PTicked false false). cbn [in_tick b2n] in *. lia.
+    + rewrite count_cons. cbn [is_tick]. specialize (IHe PIdle false true). cbn [in_tick b2n] in *. lia.
+    + specialize (IHe PIdle false false). cbn [in_tick b2n] in *. lia.
+  - destruct ph; try apply IHe. destruct closed.
+    + rewrite count_cons. cbn [is_tick]. specialize (IHe PIdle pending true). cbn [in_tick b2n] in *. lia.
+    + specialize (IHe PPolled pending false). cbn [in_tick b2n] in *. lia.
+  - destruct ph; try apply IHe. specialize (IHe PPinged pending closed). cbn [in_tick b2n] in *. lia.
+  - destruct ph; try apply IHe. rewrite count_cons.
+    specialize (IHe PIdle pending closed). cbn [in_tick b2n] in *. destruct closed; cbn [is_tick]; lia.
 Qed.
 
-(* once quit is closed no select ever yields a tick *)
-Lemma resolve_closed_no_tick evs : forall pending,
-  count is_tick (resolve pending true evs) = 0.
+(* once quit is closed: at most ONE more tick, and only if the loop was already past its poll *)
+Lemma resolve_closed_ticks evs : forall ph pending,
+  count is_tick (resolve ph pending true evs) <= b2n (past_poll ph).
 Proof.
-  induction evs as [|e evs IHe]; intros pending; [reflexivity|].
-  destruct e as [| |b]; cbn [resolve].
+  induction evs as [|e evs IHe]; intros ph pending; [cbn; lia|].
+  destruct e as [| |b| | |]; cbn [resolve].
   - apply IHe.
   - apply IHe.
-  - destruct pending; rewrite count_cons; cbn [is_tick]; apply IHe.
+  - destruct ph; try apply IHe.
+    destruct pending.
+    + destruct b.
+      * specialize (IHe PTicked false). cbn [past_poll b2n] in *. lia.
+      * rewrite count_cons. cbn [is_tick]. specialize (IHe PIdle true). cbn [past_poll b2n] in *. lia.
+    + rewrite count_cons. cbn [is_tick]. specialize (IHe PIdle false). cbn [past_poll b2n] in *. lia.
+  - destruct ph; try apply IHe.
+    rewrite count_cons. cbn [is_tick]. specialize (IHe PIdle pending). cbn [past_poll b2n] in *. lia.
+  - destruct ph; try apply IHe. specialize (IHe PPinged pending). cbn [past_poll b2n] in *. lia.
+  - destruct ph; try apply IHe. rewrite count_cons. cbn [is_tick].
+    specialize (IHe PIdle pending). cbn [past_poll b2n] in *. lia.
 Qed.
 
-Lemma no_ping_once_closed fail np pending evs :
-  count is_ping (snd (ka_run fail (Running np) (resolve pending true evs))) = 0.
+(* ... and that one is a late tick: with quit closed no plain tick is ever produced *)
+Lemma resolve_closed_no_plain_tick evs : forall ph pending,
+  existsb is_plain_tick (resolve ph pending true evs) = false.
+Proof.
+  induction evs as [|e evs IHe]; intros ph pending; [reflexivity|].
+  destruct e as [| |b| | |]; destruct ph; cbn [resolve]; try apply IHe;
+    try (destruct pending; try destruct b); cbn [existsb is_plain_tick orb]; apply IHe.
+Qed.
+
+(* while quit is open no late tick is produced and the quit branch is never taken *)
+Lemma resolve_open evs : forall ph pending,
+  existsb (fun e => match e with ECloseQuit => true | _ => false end) evs = false ->
+  count is_quit (resolve ph pending false evs) = 0 /\ existsb is_late (resolve ph pending false evs) = false.
+Proof.
+  induction evs as [|e evs IHe]; intros ph pending Hnc; [split; reflexivity|].
+  destruct e as [| |b| | |]; cbn [existsb orb] in Hnc; try discriminate;
+    destruct ph; cbn [resolve]; try (apply IHe, Hnc);
+    try (destruct pending; apply IHe, Hnc);
+    rewrite count_cons; cbn [is_quit existsb is_late orb]; apply IHe, Hnc.
+Qed.
+
+(* every fire followed by a whole iteration, quit open: every tick is served *)
+Lemma resolve_rounds bs :
+  resolve PIdle false false (flat_map round bs) = repeat STick (length bs).
+Proof.
+  induction bs as [|b bs IHb]; [reflexivity|].
+  cbn [flat_map round app resolve length repeat]. rewrite IHb. reflexivity.
+Qed.
+
+(* pings of the loop after quit has been closed *)
+Lemma pings_once_closed fail np ph pending evs :
+  count is_ping (snd (ka_run fail (Running np) (resolve ph pending true evs))) <= b2n (past_poll ph).
 Proof.
   rewrite pings_eq_ticks.
-  pose proof (taken_ticks_le fail (resolve pending true evs) np) as H1.
-  rewrite resolve_closed_no_tick in H1. lia.
+  pose proof (taken_ticks_le fail (resolve ph pending true evs) np) as H1.
+  pose proof (resolve_closed_ticks evs ph pending) as H2. lia.
 Qed.
+
+Lemma no_close_once_closed fail st ph pending evs :
+  count is_close (snd (ka_run fail st (resolve ph pending true evs))) = 0.
+Proof. apply no_plain_tick_no_close, resolve_closed_no_plain_tick. Qed.
+
+(* pings against fires, over any event list *)
+Lemma pings_vs_fires fail np ph pending closed evs :
+  count is_ping (snd (ka_run fail (Running np) (resolve ph pending closed evs)))
+  <= b2n (in_tick ph) + b2n pending + count_fire evs.
+Proof.
+  rewrite pings_eq_ticks.
+  pose proof (taken_ticks_le fail (resolve ph pending closed evs) np) as H1.
+  pose proof (resolve_ticks_le evs ph pending closed) as H2. lia.
+Qed.
+
+(* quit closed and the loop at its select with no tick pending: the very next select ends it, no ping *)
+Lemma quit_seen_at_once fail np b evs :
+  ka_run fail (Running np) (resolve PIdle false true (ESelect b :: evs))
+  = (Stopped, [ATickerStop; AReturn]).
+Proof. cbn [resolve ka_run ka_step]. rewrite run_stopped. reflexivity. Qed.
 
 Lemma loops_of_count h : loops_of h = count is_att_ok h.
 Proof.
@@ -369,39 +537,33 @@ Proof.
   cbn [loops_of]. rewrite count_cons, IHh. destruct a; reflexivity.
 Qed.
 
-Lemma resolve_no_quit_before_close evs : forall pending,
-  existsb (fun e => match e with ECloseQuit => true | _ => false end) evs = false ->
-  count is_quit (resolve pending false evs) = 0.
+(* ---- which connection the loop touches ---- *)
+Lemma conn_run_app cur l1 : forall l2,
+  conn_run cur (l1 ++ l2) = conn_run cur l1 ++ conn_run (fold_left (fun c e => match e with TDial d => d | _ => c end) l1 cur) l2.
 Proof.
-  induction evs as [|e evs IHe]; intros pending Hnc; [reflexivity|].
-  destruct e as [| |b]; cbn [existsb orb] in Hnc; cbn [resolve].
-  - apply IHe, Hnc.
-  - discriminate.
-  - destruct pending.
-    + rewrite count_cons. cbn [is_quit]. apply IHe, Hnc.
-    + apply IHe, Hnc.
+  revert cur. induction l1 as [|e l1 IH1]; intros cur l2; [reflexivity|].
+  destruct e as [a|d]; cbn [app conn_run fold_left].
+  - rewrite IH1, app_assoc. reflexivity.
+  - apply IH1.
 Qed.
 
-(* every fire followed by a select, quit open: every tick is served *)
-Lemma resolve_rounds bs :
-  resolve false false (flat_map (fun b => [EFire; ESelect b]) bs) = repeat STick (length bs).
+(* no dial in between: everything the loop does happens on the connection it started with *)
+Lemma conn_run_own c tr :
+  forallb (fun x => touches c x) (conn_run (Some c) (map TAct tr)) = true.
 Proof.
-  induction bs as [|b bs IHb]; [reflexivity|].
-  cbn [flat_map app resolve length repeat]. rewrite IHb. reflexivity.
+  induction tr as [|a tr IHt]; [reflexivity|].
+  cbn [map conn_run]. rewrite forallb_app, IHt, andb_true_r.
+  destruct a; cbn [forallb touches andb]; rewrite ?N.eqb_refl; reflexivity.
 Qed.
 
-(* after quit is closed: at most the pending tick plus one ping per later fire *)
-Lemma late_pings_bounded fail np pending evs :
-  count is_ping (snd (ka_run fail (Running np) (resolve pending true evs)))
-  <= (if pending then 1 else 0) + count_fire evs.
+(* whatever dials happen: a trace without Close closes no connection *)
+Lemma conn_run_no_close l : forall cur,
+  count is_close (flat_map act_of l) = 0 -> count closes_conn (conn_run cur l) = 0.
 Proof.
-  rewrite pings_eq_ticks.
-  pose proof (taken_ticks_le fail (resolve pending true evs) np) as H1.
-  pose proof (resolve_ticks_le evs pending true) as H2. lia.
+  induction l as [|e l IHl]; intros cur Hc; [reflexivity|].
+  destruct e as [a|d]; cbn [conn_run flat_map act_of app] in *.
+  - rewrite count_app. rewrite count_cons in Hc.
+    rewrite IHl by (destruct (is_close a); cbn in Hc; lia).
+    destruct a, cur; cbn in *; try reflexivity; lia.
+  - apply IHl, Hc.
 Qed.
-
-(* quit closed and no tick pending: the very next select ends the loop, no ping *)
-Lemma quit_seen_at_once fail np b evs :
-  ka_run fail (Running np) (resolve false true (ESelect b :: evs))
-  = (Stopped, [ATickerStop; AReturn]).
-Proof. cbn [resolve ka_run ka_step]. rewrite run_stopped. reflexivity. Qed.
